@@ -11,11 +11,8 @@
       `AaveRisk.pickDebt` / `AaveRisk.pickColl` of the projected portfolio (same tie-breaks, same visited list) and goes on
       with `_do_liquidate` on that pair, or ends when every debt has been visited.
 
-  NOT proved here (left open, stated honestly): the simulation of `_do_liquidate` itself (`Aave.doLiquidate` against
-  `AaveRisk.doLiquidate`: amounts, order of the raises, post-state) and hence of the whole loop.  Both models of that
-  step are tied to the code bit-exactly by their own drivers (C13's and C12's harness), and `Aave.liqAmounts` mirrors the
-  arithmetic of `AaveRisk.doLiquidate` line by line; the machine-checked link between the two is the remaining part of
-  the refinement.
+  The simulation of `_do_liquidate` itself (amounts, order of the raises, post-state, record) is
+  `C12_sm_doLiquidate_refines` in `Proofs/C12/RefineStep.lean`.
 -/
 import Proofs.C11.Refine
 import Proofs.C12
